@@ -839,8 +839,8 @@ static Value builtin_array_new(Value *args) {
     
     long long size = args[0].as.int_val;
     if (size < 0) {
-        fprintf(stderr, "Error: array_new() size must be non-negative\n");
-        return create_void();
+        fprintf(stderr, "Runtime Error: array_new() size must be non-negative\n");
+        exit(1);  /* Fail fast, like an out-of-range index (docs/STDLIB.md: a negative size is an error) */
     }
     
     ValueType elem_type = args[1].type;
